@@ -10,13 +10,18 @@ environment (any scope stack), every operation sequence of any length.
 `declare -r a=(1 2); a[0]=x` used to succeed), so `readonly_frozen` now covers the element writers and
 `readonly_element_write_refused` / `readonly_element_unset_refused` state the repaired behaviour.
 
-As the code stands two statements are false at full strength; each keeps its `…_full : Prop`, a
-proved `…_cex : ¬ …_full` and a `…_partial` under an explicit guard:
-* temporary assignments: a prefix assignment re-uses a binding found in an *outer* command scope
-  (guard `NoTempVisible`);
-* child environment: `iter_exported` skips non-exported bindings before the shadowing test, so a
-  shadowed exported binding leaks (see `exported_env_exact_cex`; the exactness theorem is
-  proved for single-scope environments).
+Repaired in `/repo` and mirrored by the model (each was a `_cex` or a guard here before): prefix
+assignments only re-use a binding of their own command scope (`temp_assignment_undone` is now
+unconditional), a readonly variable cannot be hidden by a prefix assignment or — when global — by a
+local (`readonly_not_hidden_by_temp_assignment`, `readonly_global_not_hidden_by_local`), locals
+inherit the export attribute, `declare -g` reaches the global, `export name` records the attribute.
+
+One statement stays false at full strength and keeps `…_full` / `…_cex` / `…_partial`: the child
+environment is *not* "the visible bindings that are exported": `iter_exported` takes the innermost
+binding that is exported and set, so an exported binding hidden by a non-exported one still reaches
+children.  bash 5.2 does exactly the same (`export e=1; f() { local e=2; export -n e; env; }` gives
+e=1), so this is the shells' semantics rather than a defect; the exactness theorem is proved for
+single-scope environments.
 -/
 namespace BrushVerif.C09
 open BrushVerif.Wire BrushVerif.Env
@@ -155,13 +160,35 @@ theorem readonly_element_update_refused (e : Env) (n i s : Str) (k k' : Kind) (v
   have hmod := modPol_refused n (fun w => w.assignAtIndex i s false) k v (by simp [Var.assignAtIndex, hr]) e.scopes 0 hg
   simp [stepR, Env.updateOrAddElem, Env.modify, hmod]
 
+private theorem unsetScopes_refused (n : Str) (k : Kind) (v : Var) (hr : v.readonly = true) :
+    ∀ (s : List Scope) (lc : Nat), getScopes n s = some (k, v) → unsetScopes n lc s = (s, false) := by
+  intro s
+  induction s with
+  | nil => intro lc h; simp [getScopes] at h
+  | cons hd tl ih =>
+    intro lc h
+    obtain ⟨k', m⟩ := hd
+    simp only [getScopes] at h
+    cases hm : mget m n with
+    | some v' =>
+      simp only [hm] at h
+      cases h
+      simp [unsetScopes, hm, hr]
+    | none =>
+      simp only [hm] at h
+      simp [unsetScopes, hm, ih _ h]
+
 /-- **readonly_element_unset_refused.**  `unset 'n[i]'` on a readonly variable is refused and changes
-nothing (`declare -r a=(1 2); unset 'a[0]'`). -/
+nothing (`declare -r a=(1 2); unset 'a[0]'`; also `readonly x=5; unset 'x[0]'`, element 0 of a scalar). -/
 theorem readonly_element_unset_refused (e : Env) (n i : Str) (k : Kind) (v : Var)
     (hg : e.get n = some (k, v)) (hr : v.readonly = true) :
     stepR e (.unsetIndex n i) = (e, false) := by
   have hmod := modPol_refused n (fun w => w.unsetIndex i) k v (by simp [Var.unsetIndex, hr]) e.scopes 0 hg
-  simp [stepR, Env.unsetIndex, Env.modify, hmod]
+  have hun : e.unset n = (e, false) := by simp [Env.unset, unsetScopes_refused n k v hr e.scopes 0 hg]
+  simp only [stepR, Env.unsetIndex]
+  split
+  · exact hun
+  · simp [Env.modify, hmod]
 
 example :
     let v0 : Var := { value := .indexed [(0, ['1']), (1, ['2'])], readonly := true }
@@ -192,45 +219,98 @@ example :
 
 /-! ## temporary assignments -/
 
-/-- guard: no name of the prefix currently resolves to a binding that lives in a command scope -/
-def NoTempVisible (e : Env) (items : List (Str × Lit)) : Prop :=
-  ∀ it ∈ items, ∀ v, e.get it.1 ≠ some (.command, v)
+/-- one prefix assignment stays inside the command scope on top -/
+private theorem applyTemp_top (e : Env) (n : Str) (lit : Lit) (m : VMap) (r : List Scope)
+    (h : e.scopes = (Kind.command, m) :: r) :
+    ∃ m', (e.applyAssignment n none lit false true (some .command) .command).1.scopes = (Kind.command, m') :: r := by
+  cases hm : mget m n with
+  | some v0 =>
+    simp [Env.applyAssignment, h, hm, Env.modify, modPol, eligible]
+  | none =>
+    by_cases hh : e.hidesReadonly n = true
+    · simp [Env.applyAssignment, h, hm, hh]
+    · cases lit <;> simp [Env.applyAssignment, h, hm, hh, Env.add, addScopes]
 
-def temp_assignment_undone_full : Prop :=
-  ∀ (e : Env) (items : List (Str × Lit)), (((e.pushTemp items).1).pop .command).1 = e
+private theorem tempAssigns_top : ∀ (items : List (Str × Lit)) (e : Env) (m : VMap) (r : List Scope),
+    e.scopes = (Kind.command, m) :: r → ∃ m', (tempAssigns e items).1.scopes = (Kind.command, m') :: r := by
+  intro items
+  induction items with
+  | nil => intro e m r h; exact ⟨m, h⟩
+  | cons it rest ih =>
+    intro e m r h
+    obtain ⟨n, lit⟩ := it
+    obtain ⟨m1, h1⟩ := applyTemp_top e n lit m r h
+    simp only [tempAssigns]
+    cases heq : e.applyAssignment n none lit false true (some .command) .command with
+    | mk e' ok =>
+      rw [heq] at h1
+      obtain ⟨m2, h2⟩ := ih e' m1 r h1
+      cases heq2 : tempAssigns e' rest with
+      | mk e'' ok' =>
+        rw [heq2] at h2
+        exact ⟨m2, h2⟩
 
-/-- `x=1 f` where `f` runs `x=2 g`: the inner prefix assignment finds `x` in the *outer* command
-scope and overwrites it there (`required_scope` compares kinds, not frames); popping the inner
-command scope does not bring `x=1` back. -/
-theorem temp_assignment_undone_cex : ¬ temp_assignment_undone_full := by
-  intro h
-  have := h { scopes := [(.loc, []), (.command, [(['x'], { value := .str ['1'], exported := true })]), (.global, [])] }
-    [(['x'], .scalar ['2'])]
-  exact absurd this (by decide)
+/-- **temp_assignment_undone.**  `n1=v1 n2=v2 … cmd`, for any environment and any list of prefix
+assignments: whatever they did happened in the command scope pushed for them, and popping it gives
+back exactly the environment from before — also when the names already have temporary bindings from
+enclosing commands (`x=1 f` where `f` runs `x=2 g`; this used to overwrite the outer binding). -/
+theorem temp_assignment_undone (e : Env) (items : List (Str × Lit)) :
+    ((e.pushTemp items).1).pop .command = (e, true) := by
+  obtain ⟨m', h⟩ := tempAssigns_top items (e.push .command) [] e.scopes rfl
+  simp [Env.pushTemp, Env.pop, h]
 
-/-- **temp_assignment_undone (partial).**  `n=v cmd` where `cmd` (a builtin such as `read`, `printf -v`,
-`getopts`, `mapfile`, or an external command: any `update_or_add` writer) writes `n` again: after the
-command scope is popped the environment is exactly what it was, provided `n` did not already resolve
-to a temporary binding of an enclosing command (`NoTempVisible e [(n, lit)]`, spelled out as `hg`). -/
-theorem temp_assignment_undone_partial (e : Env) (n : Str) (lit lit2 : Lit)
-    (hg : ∀ v, e.get n ≠ some (.command, v)) :
+
+example :
+    let e : Env := { scopes := [(.loc, []), (.command, [(['x'], { value := .str ['1'], exported := true })]), (.global, [])] }
+    (e.pushTemp [(['x'], .scalar ['2'])]).1.get ['x'] = some (.command, { value := .str ['2'], exported := true }) ∧
+      ((e.pushTemp [(['x'], .scalar ['2'])]).1.pop .command).1.get ['x'] = some (.command, { value := .str ['1'], exported := true }) := by
+  decide
+
+/-- a readonly variable is not hidden by a temporary assignment: the assignment is refused and the
+command runs in an empty command scope -/
+theorem readonly_not_hidden_by_temp_assignment (e : Env) (n : Str) (lit : Lit) (k : Kind) (v : Var)
+    (hg : e.get n = some (k, v)) (hr : v.readonly = true) :
+    e.pushTemp [(n, lit)] = (e.push .command, false) := by
+  have hg' : getScopes n e.scopes = some (k, v) := hg
+  simp [Env.pushTemp, tempAssigns, Env.applyAssignment, Env.push, mget, Env.hidesReadonly, Env.get, getScopes, hg', hr]
+
+
+example :
+    let e : Env := { scopes := [(.global, [(['x'], { value := .str ['1'], readonly := true })])] }
+    (e.pushTemp [(['x'], .scalar ['2'])]).1.childEnv = [] ∧ (e.pushTemp [(['x'], .scalar ['2'])]).1.get ['x'] = e.get ['x'] := by
+  decide
+
+/-- **temp_assignment_undone_with_write.**  …and when the command itself writes `n` again (`read`,
+`printf -v`, `getopts`, `mapfile`, any `update_or_add` writer) the write lands in the temporary
+binding (or is refused with it, if `n` is readonly) and is gone afterwards. -/
+theorem temp_assignment_undone_with_write (e : Env) (n : Str) (lit lit2 : Lit) :
     ((step (e.pushTemp [(n, lit)]).1 (.updateOrAdd n lit2 .nop .anywhere .global)).pop .command) = (e, true) := by
-  have hg' : ∀ v, getScopes n e.scopes ≠ some (.command, v) := hg
   cases hgn : getScopes n e.scopes with
   | none =>
-    cases lit <;> simp [step, stepR, Env.updateOrAdd, Env.modify, modPol, eligible, mset, Env.pushTemp, tempAssigns, Env.applyAssignment, Env.push, Env.get, getScopes, mget, hgn, Env.add, addScopes, Env.pop]
+    cases lit <;> simp [step, stepR, Env.updateOrAdd, Env.modify, modPol, eligible, mset, Env.pushTemp, tempAssigns, Env.applyAssignment, Env.push, Env.hidesReadonly, Env.get, getScopes, mget, hgn, Env.add, addScopes, Env.pop]
   | some p =>
     obtain ⟨k, v⟩ := p
-    have hk : ¬ (Kind.command = k) := by
-      intro h; subst h; exact hg' v hgn
-    cases lit <;> simp [step, stepR, Env.updateOrAdd, Env.modify, modPol, eligible, mset, Env.pushTemp, tempAssigns, Env.applyAssignment, Env.push, Env.get, getScopes, mget, hgn, Env.add, addScopes, Env.pop, hk]
+    by_cases hr : v.readonly = true
+    · -- refused: the write then meets the readonly variable itself and is refused too
+      have h1 := readonly_not_hidden_by_temp_assignment e n lit k v hgn hr
+      have hmod := modPol_refused n (fun w =>
+          if (w.assign lit2 false).2 = true then (Updater.nop.app (w.assign lit2 false).1, true) else ((w.assign lit2 false).1, false))
+        k v (by simp [Var.assign, hr]) e.scopes (bump Kind.command 0) hgn
+      simp [h1, step, stepR, Env.updateOrAdd, Env.modify, modPol, eligible, Env.push, mget, hmod, Env.pop]
+    · cases lit <;> simp [step, stepR, Env.updateOrAdd, Env.modify, modPol, eligible, mset, Env.pushTemp, tempAssigns, Env.applyAssignment, Env.push, Env.hidesReadonly, Env.get, getScopes, mget, hgn, hr, Env.add, addScopes, Env.pop]
 
-example : (∀ v, ({ scopes := [(.loc, [(['t'], { value := .str ['L'] })]), (.global, [(['t'], { value := .str ['G'], readonly := true })])] } : Env).get ['t']
-    ≠ some (.command, v)) := by
-  intro v h
-  have : (Kind.loc, ({ value := .str ['L'] } : Var)) = (Kind.command, v) := by
-    simpa [Env.get, getScopes, mget] using h
-  cases this
+/-- a readonly *global* is not hidden by a local: `local n…` in a fresh function frame is refused -/
+theorem readonly_global_not_hidden_by_local (e : Env) (n : Str) (fl : DeclFlags) (lit : Option Lit) (ai na inf : Bool) (v : Var)
+    (hg : e.get n = some (.global, v)) (hr : v.readonly = true) :
+    stepR (e.push .loc) (.declare n fl .loc lit ai na inf) = (e.push .loc, false) := by
+  have hg' : getScopes n e.scopes = some (.global, v) := hg
+  simp [stepR, Env.declare, Env.push, Env.modify, modPol, eligible, bump, mget, Env.get, getScopes, hg', hr]
+
+
+/-- a readonly local of a calling function may be shadowed (as in bash) -/
+example :
+    let e : Env := { scopes := [(.loc, [(['x'], { value := .str ['1'], readonly := true })]), (.global, [])] }
+    (stepR (e.push .loc) (.declare ['x'] {} .loc (some (.scalar ['2'])) false false true)).2 = true := by decide
 
 /-! ## function locals -/
 
@@ -260,7 +340,14 @@ private theorem write_top (n : Str) (op : Op) (h : WritesTo n op) (m : VMap) (r 
     by_cases hro : v.readonly = true
     · simp [hro]; exact ⟨v, hm⟩
     · simp [hro]; first | exact fin _ | exact ⟨_, by simp [mget_mset]⟩ | simp [mget_mset]
-  | unsetIndex i => simp [step, stepR, Env.unsetIndex, Env.modify, modPol, eligible, hm]; first | exact fin _ | exact ⟨_, by simp [mget_mset]⟩ | simp [mget_mset]
+  | unsetIndex i =>
+    simp only [step, stepR, Env.unsetIndex]
+    split
+    · simp only [Env.unset, unsetScopes, bump, hm]
+      by_cases hro : v.readonly = true
+      · simp [hro]; exact ⟨v, hm⟩
+      · simp [hro]; first | exact fin _ | exact ⟨_, by simp [mget_mset]⟩ | simp [mget_mset]
+    · simp [Env.modify, modPol, eligible, hm]; first | exact fin _ | exact ⟨_, by simp [mget_mset]⟩ | simp [mget_mset]
   | exportName un => simp [step, stepR, Env.exportName, Env.modify, modPol, eligible, hm]; first | exact fin _ | exact ⟨_, by simp [mget_mset]⟩ | simp [mget_mset]
 
 private theorem writes_top (n : Str) : ∀ (ops : List Op), (∀ op ∈ ops, WritesTo n op) → ∀ (m : VMap) (r : List Scope) (v : Var),
@@ -279,15 +366,34 @@ private theorem writes_top (n : Str) : ∀ (ops : List Op), (∀ op ∈ ops, Wri
 /-- **local_restores_shadowed.**  In a fresh function frame, `local n` followed by *any* sequence of
 writers aimed at `n` — assignments, `+=`, element assignments, `for`, `read`, `printf -v`, `(( ))`,
 `getopts`, `mapfile`, `unset` (the tombstone keeps later writes local), `unset n[i]`, `export` — and then
-the return: the environment is exactly the caller's again, whatever `n` was bound to below. -/
-theorem local_restores_shadowed (e : Env) (n : Str) (ops : List Op) (h : ∀ op ∈ ops, WritesTo n op) :
+the return: the environment is exactly the caller's again, whatever `n` was bound to below (unless
+that is a readonly global, which `local` refuses to shadow: `readonly_global_not_hidden_by_local`). -/
+theorem local_restores_shadowed (e : Env) (n : Str) (ops : List Op) (h : ∀ op ∈ ops, WritesTo n op)
+    (hnr : ∀ v, e.get n = some (.global, v) → v.readonly = false) :
     (run (step (e.push .loc) (.declare n {} .loc none false false true)) ops).pop .loc = (e, true) := by
-  have h0 : step (e.push .loc) (.declare n {} .loc none false false true) =
-      { scopes := (.loc, [(n, { value := .unset .untyped })]) :: e.scopes } := by
-    simp [step, stepR, Env.declare, Env.push, Env.modify, modPol, eligible, bump, mget, DeclFlags.before, setTransform,
-      DeclFlags.after, Env.add, addScopes, mset]
+  have h0 : ∃ w : Var, step (e.push .loc) (.declare n {} .loc none false false true) =
+      { scopes := (.loc, [(n, w)]) :: e.scopes } := by
+    have hnr' : ∀ v, getScopes n e.scopes = some (.global, v) → v.readonly = false := hnr
+    cases hg : getScopes n e.scopes with
+    | none =>
+      exact ⟨_, by simp [step, stepR, Env.declare, Env.push, Env.modify, modPol, eligible, bump, mget, Env.get, getScopes, hg,
+        DeclFlags.before, setTransform, DeclFlags.after, Env.add, addScopes, mset]; rfl⟩
+    | some p =>
+      obtain ⟨k, v⟩ := p
+      cases k with
+      | global =>
+        have := hnr' v hg
+        exact ⟨_, by simp [step, stepR, Env.declare, Env.push, Env.modify, modPol, eligible, bump, mget, Env.get, getScopes, hg, this,
+          DeclFlags.before, setTransform, DeclFlags.after, Env.add, addScopes, mset]; rfl⟩
+      | loc =>
+        exact ⟨_, by simp [step, stepR, Env.declare, Env.push, Env.modify, modPol, eligible, bump, mget, Env.get, getScopes, hg,
+          DeclFlags.before, setTransform, DeclFlags.after, Env.add, addScopes, mset]; rfl⟩
+      | command =>
+        exact ⟨_, by simp [step, stepR, Env.declare, Env.push, Env.modify, modPol, eligible, bump, mget, Env.get, getScopes, hg,
+          DeclFlags.before, setTransform, DeclFlags.after, Env.add, addScopes, mset]; rfl⟩
+  obtain ⟨w, h0⟩ := h0
   rw [h0]
-  obtain ⟨m', hm'⟩ := writes_top n ops h [(n, { value := .unset .untyped })] e.scopes { value := .unset .untyped } (by simp [mget])
+  obtain ⟨m', hm'⟩ := writes_top n ops h [(n, w)] e.scopes w (by simp [mget])
   simp [Env.pop, hm']
 
 example : ∀ op ∈ [Op.assign ['x'] none (.scalar ['1']) false, .unset ['x'], .updateOrAdd ['x'] (.scalar ['2']) .nop .anywhere .global,
@@ -321,23 +427,61 @@ theorem exported_env_exact_cex : ¬ exported_env_exact_full := by
   exact absurd this (by decide)
 
 /-- **exported_env_exact (partial)**: with a single scope (no shadowing) the child environment is
-exactly the exported, set bindings with their current values. -/
+exactly the exported, set, non-array bindings with their current values. -/
 theorem exported_env_exact_partial (k : Kind) (m : VMap) (n s : Str) :
     (n, s) ∈ ({ scopes := [(k, m)] } : Env).childEnv ↔
-      ∃ v, (n, v) ∈ m ∧ v.exported = true ∧ v.value.isSet = true ∧ s = (v.value.str0).getD [] := by
+      ∃ v, (n, v) ∈ m ∧ v.exported = true ∧ v.value.isSet = true ∧ v.value.isIndexed = false ∧
+        v.value.isAssoc = false ∧ s = (v.value.str0).getD [] := by
   simp only [Env.childEnv, exportedScopes, List.append_nil, List.mem_filterMap, List.mem_filter]
   constructor
   · rintro ⟨⟨n', v⟩, ⟨hm, hx⟩, hs⟩
-    simp at hx
-    by_cases hset : v.value.isSet = true
-    · simp [hset] at hs
-      obtain ⟨rfl, rfl⟩ := hs
-      exact ⟨v, hm, hx, hset, rfl⟩
-    · simp [hset] at hs
-  · rintro ⟨v, hm, hx, hset, rfl⟩
-    exact ⟨(n, v), ⟨hm, by simp [hx]⟩, by simp [hset]⟩
+    simp at hx hs
+    obtain ⟨⟨h1, h2, h3⟩, rfl, rfl⟩ := hs
+    exact ⟨v, hm, hx.1, h1, h2, h3, rfl⟩
+  · rintro ⟨v, hm, hx, hset, hi, ha, rfl⟩
+    exact ⟨(n, v), ⟨hm, by simp [hx, hset]⟩, by simp [hset, hi, ha]⟩
 
 example : ({ scopes := [(.global, [(['e'], { value := .str ['2'], exported := true }), (['u'], { value := .unset .untyped, exported := true }),
     (['p'], { value := .str ['9'] })])] } : Env).childEnv = [(['e'], ['2'])] := by decide
+
+/-! ## the other repaired behaviours, on their witnesses -/
+
+/-- `export e=2; f() { local e=3; env; }`: the local inherits the export attribute, the child gets e=3 -/
+example :
+    let e : Env := { scopes := [(.loc, []), (.command, []), (.global, [(['e'], { value := .str ['2'], exported := true })])] }
+    (step e (.declare ['e'] {} .loc (some (.scalar ['3'])) false false true)).childEnv = [(['e'], ['3'])] := by decide
+
+/-- `export e=1; f() { local e; env; }`: a declared-but-unset local does not hide the exported global -/
+example :
+    let e : Env := { scopes := [(.loc, []), (.command, []), (.global, [(['e'], { value := .str ['1'], exported := true })])] }
+    (step e (.declare ['e'] {} .loc none false false true)).childEnv = [(['e'], ['1'])] := by decide
+
+/-- `y=0; f() { local y=Ab; declare -g y=3; }`: `-g` reaches the global, the local is untouched -/
+example :
+    let e : Env := { scopes := [(.loc, [(['y'], { value := .str ['A', 'b'] })]), (.command, []), (.global, [(['y'], { value := .str ['0'] })])] }
+    (step e (.declare ['y'] { g := true } .declare (some (.scalar ['3'])) false false true)).scopes =
+      [(.loc, [(['y'], { value := .str ['A', 'b'] })]), (.command, []), (.global, [(['y'], { value := .str ['3'] })])] := by decide
+
+/-- `export e; e=5`: the attribute is recorded and the later value reaches children -/
+example : (run Env.init [.exportName ['e'] false, .assign ['e'] none (.scalar ['5']) false]).childEnv = [(['e'], ['5'])] := by decide
+
+/-- `x=5; unset 'x[0]'` unsets x; `unset 'x[1]'` is refused -/
+example :
+    let e : Env := { scopes := [(.global, [(['x'], { value := .str ['5'] })])] }
+    (step e (.unsetIndex ['x'] ['0'])).get ['x'] = none ∧ stepR e (.unsetIndex ['x'] ['1']) = (e, false) := by decide
+
+/-- `declare -c a=ab; a[0]+=Ab` gives `Abab` -/
+example :
+    let e : Env := { scopes := [(.global, [(['a'], { value := .indexed [(0, ['A', 'b'])], transform := .cap })])] }
+    ((step e (.assign ['a'] (some ['0']) (.scalar ['A', 'b']) true)).get ['a']).map (·.2.value) =
+      some (.indexed [(0, ['A', 'b', 'a', 'b'])]) := by decide
+
+/-- `a=(4 5); export a`: arrays do not reach children -/
+example : ({ scopes := [(.global, [(['a'], { value := .indexed [(0, ['4']), (1, ['5'])], exported := true })])] } : Env).childEnv = [] := by decide
+
+/-- `readonly x=1; declare -l x=Ab`: refused before the attribute is touched -/
+example :
+    let e : Env := { scopes := [(.global, [(['x'], { value := .str ['1'], readonly := true })])] }
+    stepR e (.declare ['x'] { l := some true } .declare (some (.scalar ['A', 'b'])) false false false) = (e, false) := by decide
 
 end BrushVerif.C09
